@@ -257,7 +257,7 @@ func c20Blocks(r *Rng, depth int) string {
 		case x == 12 && r.Intn(2) == 0:
 			bl = append(bl, Pick(r, []string{"[home]: /first-url \"First title\"", "[home]: /second-url", "[other]: <https://o.example/a b> 'O'", "[HOME]: /upper"}))
 		case x < 13:
-			cols := 1 + r.Intn(3)
+			cols := 1 + r.Intn(4)
 			var hdr, al []string
 			for c := 0; c < cols; c++ {
 				hdr = append(hdr, c20Inline(r, 0))
@@ -266,10 +266,19 @@ func c20Blocks(r *Rng, depth int) string {
 			rows := []string{"| " + strings.Join(hdr, " | ") + " |", "| " + strings.Join(al, " | ") + " |"}
 			for j, m := 0, 1+r.Intn(3); j < m; j++ {
 				var cells []string
-				for c := 0; c < cols; c++ {
+				// a body row may have fewer cells than the header (the parser pads it) or more (the parser drops them)
+				n := cols + Pick(r, []int{0, 0, 0, -1, -1, 1})
+				if n < 1 {
+					n = 1
+				}
+				for c := 0; c < n; c++ {
 					cells = append(cells, strings.ReplaceAll(strings.ReplaceAll(c20Inline(r, 1), "\n", " "), "|", "\\|"))
 				}
-				rows = append(rows, "| "+strings.Join(cells, " | ")+" |")
+				if r.Intn(5) == 0 { // without the outer pipes
+					rows = append(rows, strings.Join(cells, " | "))
+				} else {
+					rows = append(rows, "| "+strings.Join(cells, " | ")+" |")
+				}
 			}
 			bl = append(bl, strings.Join(rows, "\n"))
 		default:
